@@ -44,8 +44,9 @@ Inductive expr : Type :=
 Inductive stmt : Type :=
 | SAssign (x : string) (e : expr)
 | SAug (x : string) (e : expr)                                  (* x += e *)
-| SImport (m : string)
-| SFrom (m n a : string)                                        (* from m import n as a *)
+| SImport (m : string)                                          (* import a.b.c — binds the top-level name a *)
+| SImportAs (m a : string)                                      (* import a.b.c as a — binds a to module a.b.c *)
+| SFrom (m n a : string)                                        (* from a.b import n as a (n: attribute or submodule) *)
 | SDef (f : string) (params : list string) (body : expr)        (* def f(ps): return body *)
 | SClass (c : string) (attrs : list (string * expr))            (* class c: a1 = e1; ... *)
 | SSave (names : list string) (kws : list (string * expr))      (* save('n1', .., k1=e1, ..) *)
@@ -151,18 +152,23 @@ Record state := mk_state {
   cns : ns;              (* namespace of the class body being executed *)
   frames : list frame;
   heap : list obj;       (* object identity = index *)
-  saves : list ns        (* ghost: the dicts save(...) handed to context.update, oldest first *)
+  saves : list ns;       (* ghost: the dicts save(...) handed to context.update, oldest first *)
+  loaded : list string   (* sys.modules, as far as the module table goes: a submodule is an attribute
+                            of its package only once it has been imported *)
 }.
 
-Definition set_scr (c : ns) (s : state) := mk_state c (ctx s) (imps s) (nsd s) (g s) (cns s) (frames s) (heap s) (saves s).
-Definition set_ctx (c : ns) (s : state) := mk_state (scr s) c (imps s) (nsd s) (g s) (cns s) (frames s) (heap s) (saves s).
-Definition set_nsd (c : ns) (s : state) := mk_state (scr s) (ctx s) (imps s) c (g s) (cns s) (frames s) (heap s) (saves s).
-Definition set_g (c : ns) (s : state) := mk_state (scr s) (ctx s) (imps s) (nsd s) c (cns s) (frames s) (heap s) (saves s).
-Definition set_cns (c : ns) (s : state) := mk_state (scr s) (ctx s) (imps s) (nsd s) (g s) c (frames s) (heap s) (saves s).
-Definition set_frames (f : list frame) (s : state) := mk_state (scr s) (ctx s) (imps s) (nsd s) (g s) (cns s) f (heap s) (saves s).
-Definition set_heap (h : list obj) (s : state) := mk_state (scr s) (ctx s) (imps s) (nsd s) (g s) (cns s) (frames s) h (saves s).
+Definition set_scr (c : ns) (s : state) := mk_state c (ctx s) (imps s) (nsd s) (g s) (cns s) (frames s) (heap s) (saves s) (loaded s).
+Definition set_ctx (c : ns) (s : state) := mk_state (scr s) c (imps s) (nsd s) (g s) (cns s) (frames s) (heap s) (saves s) (loaded s).
+Definition set_nsd (c : ns) (s : state) := mk_state (scr s) (ctx s) (imps s) c (g s) (cns s) (frames s) (heap s) (saves s) (loaded s).
+Definition set_g (c : ns) (s : state) := mk_state (scr s) (ctx s) (imps s) (nsd s) c (cns s) (frames s) (heap s) (saves s) (loaded s).
+Definition set_cns (c : ns) (s : state) := mk_state (scr s) (ctx s) (imps s) (nsd s) (g s) c (frames s) (heap s) (saves s) (loaded s).
+Definition set_frames (f : list frame) (s : state) := mk_state (scr s) (ctx s) (imps s) (nsd s) (g s) (cns s) f (heap s) (saves s) (loaded s).
+Definition set_heap (h : list obj) (s : state) := mk_state (scr s) (ctx s) (imps s) (nsd s) (g s) (cns s) (frames s) h (saves s) (loaded s).
 Definition set_ctx_saves (c : ns) (l : list ns) (s : state) :=
-  mk_state (scr s) c (imps s) (nsd s) (g s) (cns s) (frames s) (heap s) l.
+  mk_state (scr s) c (imps s) (nsd s) (g s) (cns s) (frames s) (heap s) l (loaded s).
+
+Definition set_loaded (l : list string) (s : state) :=
+  mk_state (scr s) (ctx s) (imps s) (nsd s) (g s) (cns s) (frames s) (heap s) (saves s) l.
 
 (** * State-and-error monad. An error keeps the state reached so far (effects before a raise persist). *)
 Definition M (A : Type) := state -> res A * state.
@@ -611,15 +617,98 @@ Fixpoint mod_get (m : string) (t : list (string * ns)) : option ns :=
   | (m', a) :: r => if String.eqb m m' then Some a else mod_get m r
   end.
 
+(** ** Modules and the import system (CPython's, which pypyr's ImportVisitor and a py block both use)
+
+    The module table is keyed by dotted import name.  Importing [a.b.c] imports [a], [a.b],
+    [a.b.c] in turn; each newly imported submodule becomes an attribute of its package.  A table
+    entry may carry the pseudo attribute ["<self>"]: the module object that import name stands for
+    (os.path is posixpath). *)
+Fixpoint prefixes_from (acc : string) (parts : list string) : list string :=
+  match parts with
+  | [] => []
+  | p :: r => let cur := if String.eqb acc "" then p else acc ++ "." ++ p in cur :: prefixes_from cur r
+  end.
+
+Definition mod_prefixes (m : string) : list string := prefixes_from "" (split_on "."%char m "").
+
+Definition mod_value (mt : list (string * ns)) (m : string) : value :=
+  match mod_get m mt with
+  | Some attrs => match ns_get "<self>" attrs with Some v => v | None => PModule m end
+  | None => PModule m
+  end.
+
+(** import the chain; stops at the first name the table does not know (ModuleNotFoundError),
+    keeping what was imported before it *)
+Fixpoint load_chain (mt : list (string * ns)) (ms : list string) (ld : list string) : bool * list string :=
+  match ms with
+  | [] => (true, ld)
+  | m :: r => match mod_get m mt with
+              | Some _ => load_chain mt r (if mem m ld then ld else (ld ++ [m])%list)
+              | None => (false, ld)
+              end
+  end.
+
+(** getattr(module, a): a real attribute, else an imported submodule *)
+Definition mod_attr (mt : list (string * ns)) (ld : list string) (m a : string) : option value :=
+  match mod_get m mt with
+  | None => None
+  | Some attrs =>
+      if String.eqb a "<self>" then None
+      else match ns_get a attrs with
+           | Some v => Some v
+           | None => let sub := m ++ "." ++ a in
+                     match mod_get sub mt with
+                     | Some _ => if mem sub ld then Some (mod_value mt sub) else None
+                     | None => None
+                     end
+           end
+  end.
+
+Definition mod_key (v : value) (dflt : string) : string := match v with PModule c => c | _ => dflt end.
+
+(** one import statement: (name bound, object) or the error, and the new sys.modules *)
+Definition import_effect (mt : list (string * ns)) (ld : list string) (st : stmt)
+  : res (string * value) * list string :=
+  match st with
+  | SImport m =>
+      match load_chain mt (mod_prefixes m) ld with
+      | (true, ld') => match mod_prefixes m with
+                       | top :: _ => (Ok (top, mod_value mt top), ld')
+                       | [] => (Unsup, ld')
+                       end
+      | (false, ld') => (Err "ModuleNotFoundError" "", ld')
+      end
+  | SImportAs m a =>
+      match load_chain mt (mod_prefixes m) ld with
+      | (true, ld') => (Ok (a, mod_value mt m), ld')
+      | (false, ld') => (Err "ModuleNotFoundError" "", ld')
+      end
+  | SFrom m n a =>
+      match load_chain mt (mod_prefixes m) ld with
+      | (true, ld') =>
+          match mod_attr mt ld' (mod_key (mod_value mt m) m) n with
+          | Some v => (Ok (a, v), ld')
+          | None =>
+              let sub := m ++ "." ++ n in
+              match mod_get sub mt with
+              | Some _ => (Ok (a, mod_value mt sub), if mem sub ld' then ld' else (ld' ++ [sub])%list)
+              | None => (Err "ImportError" "", ld')
+              end
+          end
+      | (false, ld') => (Err "ModuleNotFoundError" "", ld')
+      end
+  | _ => (Unsup, ld)
+  end.
+
 Definition get_attr (E : env) (v : value) (a : string) : M value :=
   match v with
-  | PModule m =>
+  | PModule m => fun s =>
       match mod_get m (mods E) with
-      | Some attrs => match ns_get a attrs with
-                      | Some x => ret x
-                      | None => raise "AttributeError" ""
-                      end
-      | None => unsup
+      | Some _ => match mod_attr (mods E) (loaded s) m a with
+                  | Some x => (Ok x, s)
+                  | None => (Err "AttributeError" "", s)
+                  end
+      | None => (Unsup, s)
       end
   | PRef r => fun s =>
       match nth_error (heap s) r with
@@ -709,19 +798,13 @@ Definition exec_stmt (fuel : nat) (E : env) (st : stmt) : M unit :=
   match st with
   | SAssign x e => do v <~ eval fuel E e ;; store_var E x v
   | SAug x e => do old <~ load_var E x ;; do v <~ eval fuel E e ;; do r <~ inplace_add old v ;; store_var E x r
-  | SImport m =>
-      match mod_get m (mods E) with
-      | Some _ => store_var E m (PModule m)
-      | None => raise "ModuleNotFoundError" ""
-      end
-  | SFrom m n a =>
-      match mod_get m (mods E) with
-      | Some attrs => match ns_get n attrs with
-                      | Some v => store_var E a v
-                      | None => raise "ImportError" ""
-                      end
-      | None => raise "ModuleNotFoundError" ""
-      end
+  | SImport _ | SImportAs _ _ | SFrom _ _ _ =>
+      do b <~ (fun s => match import_effect (mods E) (loaded s) st with
+                        | (Ok xv, ld) => (Ok xv, set_loaded ld s)
+                        | (Err n m, ld) => (Err n m, set_loaded ld s)
+                        | (Unsup, ld) => (Unsup, s)
+                        end) ;;
+      store_var E (fst b) (snd b)
   | SDef f ps body => do r <~ alloc (OFunc f ps body) ;; store_var E f (PRef r)
   | SClass c attrs =>
       do _ <~ modify (set_cns []) ;;
@@ -758,14 +841,14 @@ Fixpoint exec_block (fuel : nat) (E : env) (b : list stmt) : M unit :=
 (** * pypyr's part: how the namespaces are built *)
 
 (** a Context with imports [i] between evaluations: no scratch map, no dict part *)
-Definition eval_state (c i : ns) (h : list obj) : state := mk_state [] c i [] [] [] [] h [].
+Definition eval_state (c i : ns) (h : list obj) : state := mk_state [] c i [] [] [] [] h [] [].
 Definition eval_env (mt : list (string * ns)) (b : ns) (e : expr) : env :=
   mk_env GChain (gexs e) false false mt b.
 
 (** pypyr.steps.py: globals = context.copy(); globals['__builtins__'] = ...; globals['save'] = save *)
 Definition exec_globals (c : ns) : ns :=
   ns_set "save" (PNative "<save>") (ns_set "__builtins__" (PNative "<builtins>") c).
-Definition exec_state (c : ns) (h : list obj) : state := mk_state [] c [] [] (exec_globals c) [] [] h [].
+Definition exec_state (c : ns) (h : list obj) : state := mk_state [] c [] [] (exec_globals c) [] [] h [] [].
 Definition exec_env (mt : list (string * ns)) (b : ns) : env := mk_env GPlain [] false false mt b.
 
 Definition FUEL : nat := 80.
@@ -784,6 +867,7 @@ Definition wf_stmt (st : stmt) : bool :=
   match st with
   | SAssign x e | SAug x e => negb (String.eqb x "__builtins__") && wf_expr [] false false e
   | SImport m => negb (String.eqb m "__builtins__")
+  | SImportAs _ a => negb (String.eqb a "__builtins__")
   | SFrom _ _ a => negb (String.eqb a "__builtins__")
   | SDef f ps body => negb (String.eqb f "__builtins__") && nodup_str ps && negb (mem "__builtins__" ps)
                       && wf_expr [] false false body
@@ -804,21 +888,14 @@ Definition run_exec (mt : list (string * ns)) (b : ns) (blk : list stmt) (c : ns
 
 (** pypyr.steps.pyimport: the import statements are resolved into a dict that is merged into
     Context._pystring_globals — never into the context *)
-Fixpoint pyimport_ns (mt : list (string * ns)) (b : list stmt) (acc : ns) : option ns :=
+Fixpoint pyimport_ns (mt : list (string * ns)) (b : list stmt) (acc : ns) (ld : list string)
+  : option (ns * list string) :=
   match b with
-  | [] => Some acc
-  | SImport m :: r => match mod_get m mt with
-                      | Some _ => pyimport_ns mt r (ns_set m (PModule m) acc)
-                      | None => None
-                      end
-  | SFrom m n a :: r => match mod_get m mt with
-                        | Some attrs => match ns_get n attrs with
-                                        | Some v => pyimport_ns mt r (ns_set a v acc)
-                                        | None => None
-                                        end
-                        | None => None
-                        end
-  | _ => None
+  | [] => Some (acc, ld)
+  | st :: r => match import_effect mt ld st with
+               | (Ok (x, v), ld') => pyimport_ns mt r (ns_set x v acc) ld'
+               | _ => None
+               end
   end.
 
 (** * Canonical observations (what the harness sees of the real objects):
@@ -1015,24 +1092,32 @@ Fixpoint run_evals (mt : list (string * ns)) (b : ns) (es : list expr) (s : stat
       end
   end.
 
-Definition eval_case (mt : list (string * ns)) (b : ns) (n0 : nat) (h : list obj) (c : ns)
-           (imports : list stmt) (es : list expr) : option obs :=
-  match pyimport_ns mt imports [] with
+Definition eval_case_ld (mt : list (string * ns)) (b : ns) (ld0 : list string) (n0 : nat) (h : list obj)
+           (c : ns) (imports : list stmt) (es : list expr) : option obs :=
+  match pyimport_ns mt imports [] ld0 with
   | None => None
-  | Some i =>
-      match run_evals mt b es (eval_state c i h) with
+  | Some (i, ld) =>
+      match run_evals mt b es (set_loaded ld (eval_state c i h)) with
       | Some (rs, s) => observe n0 rs s
       | None => None
       end
   end.
+Definition eval_case mt b := eval_case_ld mt b [].
 
-Definition exec_case (mt : list (string * ns)) (b : ns) (n0 : nat) (h : list obj) (c : ns)
-           (blk : list stmt) : option obs :=
-  match run_exec mt b blk c h with
+Definition run_exec_ld (mt : list (string * ns)) (b : ns) (ld0 : list string) (blk : list stmt) (c : ns)
+           (h : list obj) : res unit * state :=
+  if forallb wf_stmt blk
+  then exec_block FUEL (exec_env mt b) blk (set_loaded ld0 (exec_state c h))
+  else (Unsup, exec_state c h).
+
+Definition exec_case_ld (mt : list (string * ns)) (b : ns) (ld0 : list string) (n0 : nat) (h : list obj)
+           (c : ns) (blk : list stmt) : option obs :=
+  match run_exec_ld mt b ld0 blk c h with
   | (Unsup, _) => None
   | (Ok _, s) => observe n0 [Ok PNone] s
   | (Err n m, s) => observe n0 [Err n m] s
   end.
+Definition exec_case mt b := exec_case_ld mt b [].
 
 Definition check_obs (model : option obs) (seen : obs) : nat :=
   match model with
